@@ -10,7 +10,7 @@ from .. import cards, run
 PROP = "C16"
 LEVEL = "exploration"
 RULE = (
-    "lattice kind(6 SF + 10 XS) x heavyness(8) x process(3) x scheme(5) x PTO(0..3): thorough enumerates all 7680 cells (each twice, with independent draws of the other factors), quick a seeded "
+    "lattice kind(6 SF + 10 XS) x heavyness(8) x process(3) x scheme(5) x PTO(0..3): thorough enumerates all 7680 cells (each four times, with independent draws of the other factors), quick a seeded "
     "sample of them; projectile, NfFF, TMC 0..3, n3lo variation, SV switches, target and kinematics are drawn per cell. Each run is "
     "classified from its result or traceback: finite (all values and errors of all order keys finite) / explicit rejection (innermost frame "
     "is a 'raise' statement with a message, in yadism or in a dependency) / internal failure (anything else, incl. a dead worker). "
@@ -42,7 +42,7 @@ def cases(tier, rng):
         idx = rng.permutation(len(cells))[:1100]
         cells = [cells[i] for i in sorted(idx)]
     else:
-        cells = cells * 2  # every cell twice, with independent draws of the other factors
+        cells = cells * 4  # every cell four times, with independent draws of the other factors
     out = []
     for n, (kind, heavy, proc, scheme, pto) in enumerate(cells):
         proj = cards.pick(rng, cards.PROJECTILES)
